@@ -530,7 +530,29 @@ def etcd_cancel_once_case(seed, i, engine):
         n += 1
         lines += [c16.render_txn(c16.t_create(c16.PREFIX + b"/c%d" % n, b"v")), "rev"]
     lines += ["wcanceled w1", "wevents w1", "wcanceled w1"]
-    return c16.EtcdCase("etcd", lines, {"kind": "etcd-cancel", "engine": engine})
+
+    class CancelCase(c16.EtcdCase):
+        """`wcancel` only SENDS the client's cancel; the server's receive loop handles it whenever it is scheduled. Events of
+        writes acknowledged between the request and its `canceled` answer may or may not still be delivered (both are what the
+        property allows, and under load both happen): the events of a `wevents` AFTER the cancel request are not compared,
+        only its flags - the judgement (exactly one `canceled`, nothing naming the watch after it) is the oracle's, on the
+        `wcanceled` lines."""
+
+        def run(self, patient=False):
+            c16.EtcdCase.run(self, patient=patient)
+            seen = False
+            for i, ln in enumerate(self.lines):
+                if ln.startswith("wcancel "):
+                    seen = True
+                elif seen and ln.startswith("wevents "):
+                    for tr in (self.model, self.impl):
+                        if i < len(tr):
+                            t = tr[i].split()
+                            if len(t) >= 4 and t[0] == "wevents":
+                                tr[i] = " ".join(t[:2] + ["*"] + t[3:])
+            return self
+
+    return CancelCase("etcd", lines, {"kind": "etcd-cancel", "engine": engine})
 
 
 def oracle_cancel_once(case):
